@@ -75,8 +75,11 @@ def main(argv):
     rec.begin(case)
     try:
       mod.check(case, rec)
-    except core.Reject:
+    except core.Reject as r:
       rec.rejected += 1
+      import re as _re
+
+      rec.notes["reject: " + _re.sub(r"[0-9]+(\.[0-9]+)?", "#", str(r))[:70]] += 1  # why inputs were outside the accepted domain (digits folded)
 
   try:
     if replays:
